@@ -129,7 +129,7 @@ func Views() Profile {
 // Security is the C06 profile.
 func Security() Profile {
 	return Profile{Name: "security", MaxServices: 2, MaxMethods: 3, MaxFields: 3, Runtime: true,
-		Validations: true, Defaults: true, UserTypes: true, MultiRoute: true, BasePaths: true, Security: true, Errors: true, NoBodyVerbs: true, DualTransport: true, Streaming: true, StreamPercent: 15}
+		Validations: true, Defaults: true, UserTypes: true, MultiRoute: true, BasePaths: true, Security: true, Errors: true, NoBodyVerbs: true, DualTransport: true, Streaming: true, StreamPercent: 15, ExplicitBody: true}
 }
 
 // Response is the C03 profile.
